@@ -64,7 +64,7 @@ void fb_invn_low(dig_t *c, const dig_t *a) {
 	j = bu - bv;
 
 	/* While (u != 1). */
-	while (1) {
+	while (bu > 1) {
 		/* If j < 0 then swap(u, v), swap(g1, g2), j = -j. */
 		if (j < 0) {
 			t = u;
